@@ -699,3 +699,11 @@ def replay(rec):
     print(what)
     print(json.dumps(r["impl_outcome"], indent=1, default=str))
     return 0 if ok else 1
+
+
+CLAIM = {
+    "tech": "translator-driven Coq proof: the member tables of every BaseXmlEnum subclass, the attribute<->enumeration links, the XSD enumeration facets, pptx.spec.autoshape_types, presetShapeDefinitions.xml and the chart-writer dispatch are regenerated from the tree on every run (tx/tx_c20.py) and decided by vm_compute over the whole finite domain; generic theorems about a Gallina model of BaseXmlEnum; exhaustive extracted-model correspondence + independent oracle on real shapes and charts incl. save/re-open",
+    "text": "24 theorems closed under the global context. Generic (any member table): from_xml never maps the empty string, returns a member carrying exactly the token, token->member->token is the identity; with pairwise distinct tokens member->token->member is the identity for members and alias rows and to_xml is injective; distinctness is necessary. Instance (16 enumerations, 575 rows, 22 attribute uses, 182 auto-shape types, 187 preset definitions, 73 chart types / 29 writable): every row with an XML value has a token no other member carries and round-trips; every token is in the schema enumeration of each attribute typed by the enumeration; every auto-shape type has a table row whose prst names a definition and whose adjustment names, order and defaults equal the definition's avLst; every dispatched chart type is a member, its writer emits only schema tokens and PlotTypeInspector reports the written type. Recorded known findings are excluded by id and each is proved to genuinely fail (_known_refuted). The model is tied to enum/base.py, shapes/autoshape.py and chart/xmlwriter.py by ~4.5k exhaustive cases (every name, value, member token, schema token, malformed strings, adjustment histories re-read from the XML, all 73 chart values) with 0 differences; the oracle adds all 182 shapes and 29 charts to a deck, saves, reopens and reads them back.",
+    "note": "PlotTypeInspector and the chart XML writers are executed (on six data grids), not modelled; s:ST_Lang is xsd:string so language tokens are trivially schema-valid; schema tokens without a member (read side) are recorded under coverage.extra and judged by C11; to_xml with non-int arguments and the float<->raw adjustment conversion are outside the model; the first of two same-named preset definitions is the one compared.",
+    "ref": "6/C20",
+}
